@@ -403,6 +403,48 @@ def execute(run, prop, shard):
             run.case(shape=(rid, prname), nontrivial=True,
                      sample={"case": label, "expected": sorted(expected), "observed": {k: list(v[:2]) for k, v in outs.items()}} if run.evaluations % 300 == 0 else None)
             report(run, label, expected, outs)
+    # ---- tables of the same dialect that live in another database (one SELECT runs on one database)
+    import sqlalchemy as sqa
+
+    from .. import env as _env
+
+    other_url = {"sqlite": "sqlite:///file:pdtverif_other_db?mode=memory&uri=true", "postgres": "postgresql+pg8000://otherhost/otherdb", "mssql": "mssql+pymssql://otherhost/otherdb"}
+    for be in ("sqlite", "postgres", "mssql"):
+        eng2 = sqa.create_engine(other_url[be]) if be == "sqlite" else sqa.create_engine(other_url[be], module=_env.fake_dbapi("fake_" + be))
+        v = pdt.Table(sqa.Table("v", sqa.MetaData(), sqa.Column("k", sqa.BigInteger), sqa.Column("g", sqa.BigInteger)), pdt.SqlAlchemy(eng2), name="v")
+        t, u, _o = tabs[be]
+        cases = [
+            ("join:other_database", lambda tb: tb >> pdt.join(v, t.k == v.k, "inner")),
+            ("join:other_database:left", lambda tb: tb >> pdt.join(v, t.k == v.k, "left")),
+            ("join:other_database:nested", lambda tb: tb >> pdt.join(u >> pdt.join(v, u.k == v.k, "left"), t.k == u.k, "inner")),
+            ("join:other_database:derived", lambda tb: tb >> pdt.join(v >> pdt.filter(v.k > 0) >> pdt.alias("w"), "k", "inner")),
+            ("union:other_database", lambda tb: (tb >> pdt.select(t.k, t.g)) >> pdt.union(v)),
+            ("union:other_database:direct", lambda tb: pdt.union(tb >> pdt.select(t.k, t.g), v >> pdt.mutate(g=v.g + 1))),
+        ]
+        for prname, prefix in pres[:4]:
+            if prname == "group_by":
+                continue
+            for rid, f in cases:
+                if prname == "select_hide_y" and rid.startswith("union"):
+                    continue
+                label = f"{rid}|{prname}"
+                outs = {}
+                try:
+                    tb = prefix(t)
+                except Exception as e:  # noqa: BLE001
+                    outs[be] = ("prefix_failed", type(e).__name__)
+                else:
+                    before = frame_of(tb, be) if be in COMPILE_ONLY else None
+                    try:
+                        f(tb)
+                        outs[be] = ("accepted", None)
+                    except Exception as e:  # noqa: BLE001
+                        outs[be] = ("raise", type(e).__name__, str(e)[:160])
+                        if before is not None and frame_of(tb, be) != before:
+                            run.finding(Finding("unusable", be, None, f"{label}: build_query text changed after the rejected call", extra={"feature": None}), None)
+                run.case(shape=(rid, prname, be), nontrivial=True)
+                run.counters["other_database_cases"] += 1
+                report(run, label, {"TypeError"}, outs)
     # summarize() without arguments and without grouping
     for be in BES:
         t = tabs[be][0]
@@ -426,7 +468,7 @@ def execute(run, prop, shard):
 def finalize(run, prop):
     return run.finish(
         "rule table (type errors, non-boolean predicates, window/aggregate in filter/summarize/on, nesting, bare columns in summarize, "
-        "unknown / hidden / foreign columns, duplicate names, grouped / same-origin / other-backend joins and unions, slice_head on grouped, "
+        "unknown / hidden / foreign columns, duplicate names, grouped / same-origin / other-backend / other-database joins and unions, slice_head on grouped, "
         "full join with inequality, markers outside arrange, bad casts, const-parameter violations, non-expression arguments) x syntactic "
         "positions (top level, arithmetic, case branch / condition, partition_by= / arrange= / filter=, via C. and via table references) x "
         "hosting verbs x accepted prefix histories x {Polars, SQLite, PostgreSQL, SQL Server (the last two compile-only: usability = unchanged build_query text)}; plus generated accepted pipelines for the converse clause. "
